@@ -144,7 +144,10 @@ def main():
         sites = [json.loads(l) for l in out.splitlines() if l.startswith("{")]
         for s in sites:
             mid = "%s#%d" % (f, s["idx"])
-            if retest and mid not in last:
+            if retest:
+                # the file may have changed since (fix commits shift the indices): match on function, operator and text
+                if any(r.get("status") == "survived" and r.get("file") == f and (r.get("func"), r.get("op"), r.get("desc")) == (s["func"], s["op"], s["desc"]) for r in last.values()):
+                    q.put((f, s))
                 continue
             if s["idx"] % stride == offset % stride and mid not in done:
                 q.put((f, s))
